@@ -341,6 +341,11 @@ func (c *ShipConnection) hasSpineDatagram(message []byte) bool {
 
 // the websocket data connection was closed from remote
 func (c *ShipConnection) ReportConnectionError(err error) {
+	// the write pump may report the loss of the connection while the read pump still handles a message
+	// or a handshake timer expires: the state is judged and set after they are done, not in between
+	c.inputMux.Lock()
+	defer c.inputMux.Unlock()
+
 	// if the handshake is aborted, a closed connection is no error
 	currentState := c.getState()
 
